@@ -438,7 +438,7 @@ func gen(r *hv.Rng, i int, tier string) (string, hv.Val) {
 	nops := 1 + r.Intn(6)
 	conc := 0
 	ff, tun, fin, adm := false, false, false, false
-	for k := 0; k < nops; k++ {
+	for k := 0; k < nops && len(ops) <= 14; k++ { // an admin sequence adds up to 7 ops, the final releases 3: never more than 24
 		// choose: start a request on a free rid, or release a held one
 		var heldIds, free []int
 		for rid := 0; rid < 3; rid++ {
@@ -522,6 +522,9 @@ func gen(r *hv.Rng, i int, tier string) (string, hv.Val) {
 		if held[rid] {
 			ops = append(ops, hv.L{hv.I(2), hv.I(rid)})
 		}
+	}
+	if len(ops) > 24 { // the input format (decode_C07, impl) accepts at most 24 operations
+		ops = ops[:24]
 	}
 	if conc > 0 {
 		class = fmt.Sprintf("conc%d", conc)
